@@ -156,8 +156,13 @@ def _adj_sites(func):
     """mutations of an adjacency map inside func (not nested defs)"""
     singles, merges, overwrites, deletes = [], [], [], []
     for n in walk_no_nested(func):
-        if isinstance(n, ast.Call) and isinstance(n.func, ast.Attribute) and isinstance(n.func.value, ast.Subscript):
-            sub = n.func.value
+        recv = n.func.value if isinstance(n, ast.Call) and isinstance(n.func, ast.Attribute) else None
+        if isinstance(recv, ast.Name):
+            rv = reaching_value(recv.id, n)       # nb = adj[o1]; nb.add(o2)
+            if isinstance(rv, ast.Subscript):
+                recv = rv
+        if isinstance(recv, ast.Subscript):
+            sub = recv
             mp = _adj_map(sub.value, n)
             if mp is None:
                 continue
@@ -530,7 +535,7 @@ def rule_const(repo):
                             "node: the two signals end up in one net although they were never connected", f.lineno, sig='shared')
                     continue
                 r.ok(m, q, cons + " -> sig <-> Const(parent=s)")
-    r.require_floor(20)
+    r.require_floor(24)
     return r
 
 
@@ -1200,7 +1205,7 @@ def rule_seed(repo):
                                 *([] if ok else [f"must return {want!r} (all other slices of the same signal), got {kind} {val!r}: "
                                                  f"an overlapping driven sibling is not seen as the driver", g.lineno]))
     _uniform_or_error(r, 'the seeding part / resolution loop of _resolve_value_connections', P.prologue + P.tail)
-    r.require_floor(30)
+    r.require_floor(35)
     return r
 
 
@@ -1350,7 +1355,7 @@ def rule_unique(repo):
         f"(`{P.HEADED} + [(None, x) for x in {P.HEADLESS}]`): otherwise undriven nets vanish and NoWriterError is never raised",
         P.ret.lineno]))
     _uniform_or_error(r, 'the resolution loop of _resolve_value_connections', P.tail)
-    r.require_floor(250)
+    r.require_floor(300)
     return r
 
 
@@ -1763,7 +1768,7 @@ def rule_residence(repo):
                 r.ok(gm, gq, cons + f": block assigns {readers!r}")
     _uniform_or_error(r, 'the net loop of lock_in_simulation / the reader selection of _generate_net_blocks',
                       list(plp.body) + [st.test if any(st is k for k in gskips) else st for st in gstmts])
-    r.require_floor(60)
+    r.require_floor(130)
     return r
 
 
@@ -1965,7 +1970,7 @@ def rule_nodes(repo):
     if isinstance(inner, AObj):
         inner.attrs['_dsl'].attrs.setdefault('full_name', 's.st.c')
         check_field(inner, 'd', mk_bits(3), S1)
-    r.require_floor(20)
+    r.require_floor(23)
     return r
 
 
@@ -2132,7 +2137,7 @@ def rule_netblock(repo):
                 n_ok += 1
                 r.ok(gm, gq, cons + f": x = writer; {len(readers)} readers assigned relative to {lca!r}")
     _uniform_or_error(r, 'the block generation of _generate_net_blocks', [st.test if any(st is k for k in skips) else st for st in stmts])
-    r.require_floor(200)
+    r.require_floor(270)
     return r
 
 
@@ -2296,6 +2301,8 @@ EQUIV = [
        "      s._dsl.adjacency[o2].add( o1 )\n      s._dsl.adjacency[o1].add( o2 )\n\n      s._dsl.connect_order"),
     _m('eq-sigsig-alias', L3, "    if o1 not in s._dsl.adjacency[o2]:\n      assert o2 not in s._dsl.adjacency[o1]\n      s._dsl.adjacency[o1].add( o2 )\n      s._dsl.adjacency[o2].add( o1 )",
        "    adj = s._dsl.adjacency\n    if o1 not in adj[o2]:\n      assert o2 not in adj[o1]\n      adj[o1].add( o2 )\n      s._dsl.adjacency[o2].add( o1 )"),
+    _m('eq-sigsig-neighbour-set-local', L3, "      s._dsl.adjacency[o1].add( o2 )\n      s._dsl.adjacency[o2].add( o1 )\n\n      s._dsl.connect_order",
+       "      nb1 = s._dsl.adjacency[o1]\n      nb2 = s._dsl.adjacency[o2]\n      nb1.add( o2 )\n      nb2.add( o1 )\n\n      s._dsl.connect_order"),
     _m('eq-collect-update', L3, "        all_ajd[k] |= v", "        all_ajd[k].update( v )"),
     _m('eq-const-parent-by-ctor-only', L3, "    o2._dsl.parent_obj = s\n", ""),
     _m('eq-const-dead-host-code-removed', L3, "    host = o1.get_host_component()\n\n    if isinstance( o1, InPort ):\n      # connecting constant to inport should be at the parent level\n      host = host.get_parent_object()\n\n", ""),
